@@ -158,6 +158,10 @@ impl ExchangeId {
 
             match select3(&mut recv, &mut session_removed, &mut timeout).await {
                 Either3::First(mut packet) => {
+                    // If our session is gone, the predicate above lets any packet through just to
+                    // wake us up: bail out, leaving the packet in place for the exchange it is for
+                    self.with_state(matter, |_| Ok(()))?;
+
                     packet.clear_on_drop(true);
 
                     self.check_no_pending_retrans(matter)?;
